@@ -4,6 +4,7 @@ import (
 	"fmt"
 	"sort"
 	"strings"
+	"sync"
 	"time"
 
 	"github.com/drand/drand/v2/internal/chain/beacon"
@@ -44,6 +45,10 @@ func cacheAlphabet() []cev {
 	for _, dr := range []uint64{1, 2} {
 		a = append(a, cev{"append", 2, dr, "p0"})
 	}
+	// member 3 colludes with member 1 (the property quantifies over floods by up to n-t members): it signs fresh
+	// previous signatures too, and "join": the most recent fresh previous signature anybody used (an entry that another
+	// flooder created)
+	a = append(a, cev{"append", 3, 1, "fresh"}, cev{"append", 3, 1, "join"}, cev{"append", 1, 1, "join"})
 	return a
 }
 
@@ -68,83 +73,116 @@ func partial(member int, round uint64, prev []byte) *proto.PartialBeaconPacket {
 func cacheCheck(c *vlib.Check) {
 	alpha := cacheAlphabet()
 	limit := beacon.VerifMaxPartialsPerNode()
-	members := 2
+	members := 3
 	sch := fix.Scheme(true)
-	depth := 8
+	depth := 6
 	if !c.Quick() {
-		depth = 11
+		depth = 10
 	}
-	step := func(hist []int) (string, []explore.Violation, bool) {
-		pc := beacon.VerifNewPartialCache(fix.Logger(), sch)
-		head := uint64(10)
-		fresh := 0
-		// honest member 2's live entries (id -> round) according to the property: they stay until flushed
-		honest := map[string]uint64{}
-		var viols []explore.Violation
-		for i, ei := range hist {
-			e := alpha[ei]
-			last := i == len(hist)-1
-			if e.kind == "store" {
-				head++
-				pc.Flush(head)
-				for id, r := range honest {
-					if r <= head {
-						delete(honest, id)
-					}
-				}
-			} else {
-				var prev []byte
-				switch e.prev {
-				case "p0", "p1":
-					prev = []byte(e.prev)
-				default:
-					fresh++
-					prev = []byte(fmt.Sprintf("f%d", fresh))
-				}
-				r := head + e.dr
-				err := pc.Append(partial(e.member, r, prev))
-				if e.member == 2 {
-					if err != nil && last {
-						viols = append(viols, explore.Violation{Fingerprint: "c12/cache/honest-append-rejected", Detail: fmt.Sprintf("Append of honest member 2 (within its limit) failed: %v", err)})
-					}
-					if err == nil {
-						honest[beacon.VerifRoundID(r, prev)] = r
-					}
+	type world struct {
+		pc     *beacon.VerifPartialCache
+		head   uint64
+		fresh  int
+		honest map[string]uint64 // honest member 2's live entries (id -> round) according to the property: they stay until flushed
+	}
+	apply := func(w *world, e cev) error {
+		if e.kind == "store" {
+			w.head++
+			w.pc.Flush(w.head)
+			for id, r := range w.honest {
+				if r <= w.head {
+					delete(w.honest, id)
 				}
 			}
-			if !last {
-				continue
+			return nil
+		}
+		var prev []byte
+		switch e.prev {
+		case "p0", "p1":
+			prev = []byte(e.prev)
+		case "join":
+			prev = []byte(fmt.Sprintf("f%d", w.fresh))
+		default:
+			w.fresh++
+			prev = []byte(fmt.Sprintf("f%d", w.fresh))
+		}
+		r := w.head + e.dr
+		err := w.pc.Append(partial(e.member, r, prev))
+		if e.member == 2 && err == nil {
+			w.honest[beacon.VerifRoundID(r, prev)] = r
+		}
+		return err
+	}
+	bounds := func(w *world, ctx string) (viols []explore.Violation) {
+		rounds, rcvd := w.pc.Rounds(), w.pc.Rcvd()
+		for id := range w.honest {
+			has := false
+			for _, m := range rounds[id] {
+				has = has || m == 2
 			}
-			rounds, rcvd := pc.Rounds(), pc.Rcvd()
-			for id := range honest {
-				has := false
-				for _, m := range rounds[id] {
-					has = has || m == 2
-				}
-				if !has {
-					viols = append(viols, explore.Violation{Fingerprint: "c12/cache/honest-partial-evicted", Detail: "a partial of honest member 2 for a round that is not stored yet disappeared from the cache"})
-				}
-			}
-			if len(rounds) > members*limit {
-				viols = append(viols, explore.Violation{Fingerprint: "c12/cache/rounds-unbounded", Detail: fmt.Sprintf("%d cached (round,previous) entries with %d members and limit %d", len(rounds), members, limit)})
-			}
-			for m, l := range rcvd {
-				if len(l) > members*limit {
-					viols = append(viols, explore.Violation{Fingerprint: "c12/cache/bookkeeping-unbounded", Detail: fmt.Sprintf("member %d has %d bookkeeping entries (limit per member %d, %d members): grows with every new partial", m, len(l), limit, members)})
-				}
-			}
-			perMember := map[int]int{}
-			for _, ms := range rounds {
-				for _, m := range ms {
-					perMember[m]++
-				}
-			}
-			for m, n := range perMember {
-				if n > members*limit {
-					viols = append(viols, explore.Violation{Fingerprint: "c12/cache/member-entries-unbounded", Detail: fmt.Sprintf("member %d has signatures in %d cached entries", m, n)})
-				}
+			if !has {
+				viols = append(viols, explore.Violation{Fingerprint: "c12/cache/honest-partial-evicted", Detail: "a partial of honest member 2 for a round that is not stored yet disappeared from the cache" + ctx})
 			}
 		}
+		if len(rounds) > members*limit {
+			viols = append(viols, explore.Violation{Fingerprint: "c12/cache/rounds-unbounded", Detail: fmt.Sprintf("%d cached (round,previous) entries with %d members and limit %d%s", len(rounds), members, limit, ctx)})
+		}
+		for m, l := range rcvd {
+			if len(l) > members*limit {
+				viols = append(viols, explore.Violation{Fingerprint: "c12/cache/bookkeeping-unbounded", Detail: fmt.Sprintf("member %d has %d bookkeeping entries (limit per member %d, %d members): grows with every new partial%s", m, len(l), limit, members, ctx)})
+			}
+		}
+		perMember := map[int]int{}
+		for _, ms := range rounds {
+			for _, m := range ms {
+				perMember[m]++
+			}
+		}
+		for m, n := range perMember {
+			if n > members*limit {
+				viols = append(viols, explore.Violation{Fingerprint: "c12/cache/member-entries-unbounded", Detail: fmt.Sprintf("member %d has signatures in %d cached entries (limit per member %d)%s", m, n, limit, ctx)})
+			}
+		}
+		return viols
+	}
+	// pump words: every word of one or two appends, repeated often enough that anything that grows with each
+	// repetition exceeds the bound ("no matter how many distinct rounds or previous signatures a member signs")
+	var pumps [][]int
+	pumpLetter := func(a cev) bool {
+		// the flooders' letters (honest member 2 does not repeat itself); of the p0/p1 variants one is enough
+		return a.kind == "append" && a.member != 2 && a.prev != "p1" && !(a.prev == "p0" && a.dr != 1)
+	}
+	for i, a := range alpha {
+		if !pumpLetter(a) {
+			continue
+		}
+		pumps = append(pumps, []int{i})
+		for j, b := range alpha {
+			if pumpLetter(b) && i != j {
+				pumps = append(pumps, []int{i, j})
+			}
+		}
+	}
+	reps := members*limit + 4
+	build := func(hist []int) (*world, error, int) {
+		w := &world{pc: beacon.VerifNewPartialCache(fix.Logger(), sch), head: 10, honest: map[string]uint64{}}
+		var lastErr error
+		lastMember := 0
+		for _, ei := range hist {
+			lastErr = apply(w, alpha[ei])
+			lastMember = alpha[ei].member
+		}
+		return w, lastErr, lastMember
+	}
+	var pumped sync.Map
+	step := func(hist []int) (string, []explore.Violation, bool) {
+		w, lastErr, lastMember := build(hist)
+		var viols []explore.Violation
+		if len(hist) > 0 && lastMember == 2 && lastErr != nil {
+			viols = append(viols, explore.Violation{Fingerprint: "c12/cache/honest-append-rejected", Detail: fmt.Sprintf("Append of honest member 2 (within its limit) failed: %v", lastErr)})
+		}
+		viols = append(viols, bounds(w, "")...)
+		pc, head := w.pc, w.head
 		// canonical key: entries relative to head, fresh previous signatures renamed by first occurrence
 		rounds, rcvd := pc.Rounds(), pc.Rcvd()
 		ren := map[string]string{}
@@ -180,7 +218,38 @@ func cacheCheck(c *vlib.Check) {
 			rs = append(rs, fmt.Sprintf("%s=%v", name(id), mm))
 		}
 		sort.Strings(rs)
-		return strings.Join(parts, ";") + "|" + strings.Join(rs, ","), viols, false
+		// "join" targets the most recent fresh previous signature: which entry that is (if still cached) is part of the state
+		jn := "-"
+		if jid := beacon.VerifRoundID(head+1, []byte(fmt.Sprintf("f%d", w.fresh))); rounds[jid] != nil {
+			jn = name(jid)
+		}
+		key := strings.Join(parts, ";") + "|" + strings.Join(rs, ",") + "|join=" + jn
+		if _, dup := pumped.LoadOrStore(key, true); dup {
+			return key, viols, false // the pump words were tried from this state already
+		}
+		if len(viols) == 0 {
+		pumping:
+			for _, pw := range pumps {
+				usesHonest := false
+				for _, ei := range pw {
+					usesHonest = usesHonest || alpha[ei].member == 2
+				}
+				if usesHonest {
+					continue // member 2 is honest: it does not repeat itself
+				}
+				w2, _, _ := build(hist)
+				for r := 0; r < reps; r++ {
+					for _, ei := range pw {
+						_ = apply(w2, alpha[ei])
+					}
+				}
+				if v := bounds(w2, fmt.Sprintf(" after repeating [%s %s] %d times", alpha[pw[0]], alpha[pw[len(pw)-1]], reps)); len(v) > 0 {
+					viols = append(viols, v...)
+					break pumping
+				}
+			}
+		}
+		return key, viols, false
 	}
 	describe := func(hist []int) any {
 		var l []string
